@@ -91,8 +91,14 @@ func (sp *ServiceProvider) ValidateAttributeQuerySignature(soapRequest string) e
 		return err
 	}
 
-	attrQuery := doc.FindElement("//AttributeQuery")
-	if attrQuery == nil {
+	// the element that is verified has to be the one the handler decodes and answers: the only AttributeQuery of the
+	// request, directly inside the body of the envelope
+	attrQueries := doc.FindElements("//AttributeQuery")
+	if len(attrQueries) != 1 {
+		return fmt.Errorf("error while parsing request")
+	}
+	attrQuery := attrQueries[0]
+	if body := attrQuery.Parent(); body == nil || body.Tag != "Body" || body.Parent() != doc.Root() || len(doc.Root().SelectElements("Body")) != 1 {
 		return fmt.Errorf("error while parsing request")
 	}
 
